@@ -169,9 +169,8 @@ theorem readManifest_schema_irrelevant (ctx : Ctx κ) (s1 s2 : Store κ) (d1 d2 
     (h1 : s1.get d1 = some (.man .old p1 cs)) (h2 : s2.get d2 = some (.man .new p2 cs))
     (hr : ∀ c ∈ cs, ctx.reload .old c = ctx.reload .new c) :
     readManifest ctx s1 d1 = readManifest ctx s2 d2 := by
-  simp only [readManifest, h1, h2]
-  congr 1
-  exact List.map_congr_left hr
+  simp only [readManifest_eq, h1, h2]
+  rw [List.map_congr_left hr]
 
 /-! ## status over the restored tree -/
 
